@@ -128,6 +128,14 @@ var props = map[string]*propSpec{
 		QuickBudget:    45 * time.Second,
 		ThoroughBudget: 12 * time.Minute,
 	},
+	"C17": {
+		Level: "exploration",
+		Rule: "one run = a tunnel (forward, reverse with 1-4 tunnels behind one handler, nested) opened with drawn metadata, a peer and a context value x 2-6 concurrent RPCs (direct or through the pooled channel) whose handlers and callers call the four accessors at a random point, mutate what they get back (overwrite value slices in place, add keys) and call them again; ground truth for 'the tunnel that carried the RPC' is WithTunnelChannel cross-checked with the channel the RPC was issued on; the same family runs under the race detector in C15; " +
+			"non-trivial = at least two probes ran; distinct = distinct schedule digests",
+		Families:       []famPlan{{Family: "identity", Weight: 1}},
+		QuickBudget:    35 * time.Second,
+		ThoroughBudget: 10 * time.Minute,
+	},
 	"C18": {
 		Level: "exploration",
 		Rule: "one run = a tunnel (forward, reverse or nested; with or without its own opening deadline) x 1-4 RPCs each carrying a grpc-timeout header drawn from 16 classes (1-8 digits, leading zeros, 99999999, more than eight digits, values around and beyond int64 overflow for every unit, signs, spaces, empty / missing parts, unknown units, non-ASCII or non-decimal digits, repeated headers); the handler records ctx.Deadline() and virtual time at its start and, for durations up to 40 days, waits for its context to end; compared with an independent implementation of the gRPC wire specification; " +
